@@ -12,6 +12,8 @@ Campaigns (all specs are JSON-able):
              step runs; both restored after every use - no thread, no wall clock). Oracle = reference model of the
              registry (generation counters per release, PEP 440 order fixed by the position in ``VERSIONS``).
 * explicit - any sequence of selects (over one or two registries) returns the configured instance of the registry asked.
+* pool     - one two-variant set instantiated 1-100 times in the same process (the only campaign that does not clear
+             forml's process-global ``ABTest.Slot._instance`` cache between selectors); same oracle as abtest.
 Exhaustive part: every legal weight vector over {omitted, .1, .25, .5, 1, 2, 3}^k, k <= 4 (quick) / k <= 5 (thorough).
 """
 import datetime
@@ -42,9 +44,9 @@ RULE = (
     'omitted where inherited; targets all-float-in-(0,1), all-positive-int or omitted in every mix the docstring allows) '
     'served for n in 1..2000 requests and checked at every prefix; Latest histories of 4-24 operations '
     '{publish, commit, select, tick} over 1-2 scratch registries with 6 PEP 440 versions (configured and implicit '
-    'release); Explicit select sequences. Non-trivial: A/B set with k>=3 or an omitted target; Latest history in which a '
-    'generation is committed between two selects on the same registry; Explicit sequence of >=2 selects. '
-    'Distinct = distinct spec digest.'
+    'release); Explicit select sequences; pools of 1-100 identical two-variant selectors living in one process. '
+    'Non-trivial: A/B set with k>=3 or an omitted target; Latest history in which a generation is committed between two '
+    'selects on the same registry; Explicit sequence of >=2 selects; pool of >=2 selectors. Distinct = distinct spec digest.'
 )
 ASSUMPTIONS = [
     'legal A/B weight mixes (from the ABTest docstring): all explicit targets are floats in (0,1) or all are positive '
@@ -55,6 +57,8 @@ ASSUMPTIONS = [
     'Latest: a configured release always has a generation before the first select; an implicit select on a registry '
     'without any generation may raise Listing.Empty or Level.Invalid (not judged); tick = one synchronous _refresh iteration, the real '
     "thread's timing/liveness is not tested",
+    'the class-level lru_cache behind ABTest.Slot._instance is cleared before every abtest case (a case stands for a '
+    'fresh process); selectors sharing a process are the subject of the pool campaign only',
     'generations are committed through asset.Release.dump/put with a tag carrying a training timestamp; releases are '
     'published through asset.Project.put when the version is an increment, else through Registry.push',
 ]
@@ -760,10 +764,10 @@ def check_explicit(ctx, spec):
 # ---- campaigns -------------------------------------------------------------------------------------------------------------
 def campaigns(ctx):
     return [
-        Campaign('abtest', abtest_spec(), check_abtest, 1300, 12000),
-        Campaign('latest', latest_spec(), check_latest, 400, 2500),
-        Campaign('explicit', explicit_spec, check_explicit, 150, 500),
-        Campaign('pool', pool_spec(), check_pool, 30, 150),
+        Campaign('abtest', abtest_spec(), check_abtest, 1300, 8000),
+        Campaign('latest', latest_spec(), check_latest, 400, 1500),
+        Campaign('explicit', explicit_spec, check_explicit, 150, 300),
+        Campaign('pool', pool_spec(), check_pool, 30, 100),
     ]
 
 
